@@ -17,12 +17,14 @@ pkg=$(grep -m1 '^package ' $SRC/demo${N}_test.go | awk '{print $2}')
 case $pkg in roaring|roaring_test) dir=. ;; roaring64|roaring64_test) dir=roaring64 ;; *) dir=BitSliceIndexing ;; esac
 # the 32-bit BSI package is also called "roaring": look at what the patch touches / what the demo imports
 if [ "$dir" = "." ] && grep -q '^diff --git a/BitSliceIndexing/' $PATCH && ! grep -q '^diff --git a/[a-z_0-9]*\.go' $PATCH; then dir=BitSliceIndexing; fi
+[ -n "${SEED_DIR:-}" ] && dir=$SEED_DIR      # override: where the demo goes
+RACE=""; [ -n "${SEED_RACE:-}" ] && RACE="-race"   # schedule-dependent demos are run under the race detector
 git apply $PATCH
 suite=$(python3 /verif/tools/baseline.py $WT | head -1)
 cp $SRC/demo${N}_test.go $dir/zz_seed_demo_test.go
-$GO test -vet=off -count=1 -run 'TestSeedDemo$' ./$dir/ > /tmp/seedout/$P/confirm$N.with.log 2>&1; with=$?
+$GO test $RACE -vet=off -count=1 -run 'TestSeedDemo$' ./$dir/ > /tmp/seedout/$P/confirm$N.with.log 2>&1; with=$?
 git apply -R $PATCH
-$GO test -vet=off -count=1 -run 'TestSeedDemo$' ./$dir/ > /tmp/seedout/$P/confirm$N.without.log 2>&1; without=$?
+$GO test $RACE -vet=off -count=1 -run 'TestSeedDemo$' ./$dir/ > /tmp/seedout/$P/confirm$N.without.log 2>&1; without=$?
 rm -f $dir/zz_seed_demo_test.go
 cd /; git -C /repo worktree remove --force $WT
 echo "RESULT $P-$N: suite[$suite] demo_with_patch_rc=$with demo_without_rc=$without dir=$dir"
